@@ -47,7 +47,10 @@ for sid, c in sorted(cat.items()):
     }
     json.dump(meta, open(os.path.join(d, "meta.json"), "w"), indent=1, ensure_ascii=False)
     caught = [x for x in detections if x["exit"] == 1]
-    rows.append((sid, c["property"], (c["what"][:157] + "…" if len(c["what"]) > 158 else c["what"]), c.get("caught_by", ""), "yes" if caught else ("NO" if detections else "not run"), c.get("history", "")))
+    own = [x for x in caught if x["check"] == c["property"]]
+    others = sorted({x["check"] for x in caught if x["check"] != c["property"]})
+    verdict = "yes" if own else ("only by the %s check" % ", ".join(others) if others else ("NO" if detections else "not run"))
+    rows.append((sid, c["property"], (c["what"][:157] + "…" if len(c["what"]) > 158 else c["what"]), c.get("caught_by", ""), verdict, c.get("history", "")))
 
 lines = ["| seeded change | property | what it does | caught by | raised VIOLATION | what it took |", "|---|---|---|---|---|---|"]
 for r in rows:
